@@ -866,8 +866,10 @@ def oracle(m, p, err, rate) -> List[Tuple[str, str]]:
             y, mo, dd = (int(x) for x in r["time"][:10].split("-"))
             hh, mi = int(r["time"][11:13]), int(r["time"][14:16])
             exact = Fraction(micros(_dt.datetime(y, mo, dd, hh, mi))) + Fraction(r["time"][17:]) * 10**6
-            if abs(Fraction(micros(t)) - exact) > 1:
-                out.append((f"{V}:dataset-time", f"row {k}: dataset epoch {t} is not the file's {r['time']} (to 1 us)"))
+            # a datetime holds whole microseconds: the nearest one is the best it can do (a 100 ns digit of 5 may go either way:
+            # the code adds timedelta(milliseconds=<float>)); anything further off - truncation of the 100 ns digit - is a wrong epoch
+            if abs(Fraction(micros(t)) - exact) > Fraction(1, 2):
+                out.append((f"{V}:dataset-time", f"row {k}: dataset epoch {t} is not the file's {r['time']} rounded to the nearest microsecond"))
                 break
     except Exception:
         pass
@@ -936,6 +938,8 @@ def gen_file3_model(rng, thorough: bool) -> Dict[str, Any]:
     m["comments"] = [(p, t.strip()) for p, t in m["comments"]]
     for ep in m["epochs"]:
         ep["flag"] = "1" if rng.random() < 0.15 else "0"
+    sprinkle_sub_us(rng, m)
+    midnight_epoch(rng, m)
     if rng.random() < 0.25:
         insert_event_epochs(rng, m)
     return m
@@ -1064,6 +1068,14 @@ def stats_file3_glonass(ctx, m):
 
 def stats_file3(ctx: Ctx, m, rate):
     ctx.count("file3")
+    for ep in m["epochs"]:
+        sec = ep["date"][5].strip()
+        if ep["date"][3:] == [0, 0, "0.0000000"]:
+            ctx.count("file3 epoch at midnight")
+        if sec[-1] != "0":
+            ctx.count(f"file3 epoch with 100 ns digit {sec[-1]}")
+            if sec.startswith("59.999999") and sec[-1] in "56789":
+                ctx.count(f"file3 epoch rolling over on rounding to the microsecond")
     ctx.count(f"file3 style={m['style']}")
     ctx.count("file3 rate=" + ("none" if rate is None else "set"))
     ctx.count(f"file3 systems={len(m['obstypes'])}")
@@ -1140,6 +1152,49 @@ FILE2_CELLS = {"VER2": 3, "PGM": 3, "COM": 1, "MNAME": 1, "MNUM": 1, "OBSAG": 2,
                "TYPES2": 10, "TYPES2C": 9, "INTERVAL": 1, "TFIRST": 7, "TLAST": 7, "RCVCLK": 1, "LEAP2": 1, "NSAT": 1}
 
 
+def sprinkle_sub_us(rng, m, ctx_count=None):
+    """epochs with a non-zero 100 ns digit (every digit 1-9), incl. 59.9999995 ... 59.9999999 at the end of a minute / hour / day /
+    month / year, where rounding to the microsecond of the Dataset time rolls over"""
+    import calendar
+    if rng.random() > 0.4:
+        return
+    used = {tuple(ep["date"]) for ep in m["epochs"]}
+    for ep in rng.sample(m["epochs"], min(len(m["epochs"]), rng.randint(1, 3))):
+        y, mo, d, h, mi, _ = ep["date"]
+        k = rng.random()
+        if k < 0.5:
+            sec = f"{rng.randint(0, 59)}.{rng.randint(0, 999999):06d}{rng.randint(1, 9)}"
+        else:
+            sec = f"59.999999{rng.randint(5, 9)}"
+            end = rng.random()
+            if end < 0.75:
+                mi = 59
+            if end < 0.5:
+                h = 23
+            if end < 0.3:
+                d = calendar.monthrange(y, mo)[1]
+            if end < 0.15:
+                mo, d = 12, 31
+        new = [y, mo, d, h, mi, sec]
+        if tuple(new) in used:
+            continue
+        used.discard(tuple(ep["date"]))
+        used.add(tuple(new))
+        ep["date"] = new
+    m["has_sub_us"] = True
+
+
+def midnight_epoch(rng, m):
+    """an epoch at exactly 00:00:00.0000000 (seconds of day 0)"""
+    if rng.random() > 0.15:
+        return
+    ep = rng.choice(m["epochs"])
+    y, mo, d, _, _, _ = ep["date"]
+    new = [y, mo, d, 0, 0, "0.0000000"]
+    if all(tuple(e["date"]) != tuple(new) for e in m["epochs"]):
+        ep["date"] = new
+
+
 def gen_file2_model(rng, thorough: bool) -> Dict[str, Any]:
     """gen_file2 with comment texts without leading blanks (a cell of the abstract file has no outer blanks) and every epoch with
     its flag (0, or 1 = power failure between the previous and this epoch: the observation records follow as for flag 0)"""
@@ -1147,6 +1202,8 @@ def gen_file2_model(rng, thorough: bool) -> Dict[str, Any]:
     m["comments"] = [(p, t.strip()) for p, t in m["comments"]]
     for ep in m["epochs"]:
         ep["flag"] = "1" if rng.random() < 0.15 else "0"
+    sprinkle_sub_us(rng, m)
+    midnight_epoch(rng, m)
     return m
 
 
@@ -1185,6 +1242,14 @@ def blank_lines2(sat) -> int:
 
 def stats_file2(ctx: Ctx, m, rate):
     ctx.count("file2")
+    for ep in m["epochs"]:
+        sec = ep["date"][5].strip()
+        if ep["date"][3:] == [0, 0, "0.0000000"]:
+            ctx.count("file2 epoch at midnight")
+        if sec[-1] != "0":
+            ctx.count(f"file2 epoch with 100 ns digit {sec[-1]}")
+            if sec.startswith("59.999999") and sec[-1] in "56789":
+                ctx.count(f"file2 epoch rolling over on rounding to the microsecond")
     ctx.count(f"file2 style={m['style']}")
     ctx.count("file2 rate=" + ("none" if rate is None else "set"))
     ctx.count(f"file2 epochs={min(len(m['epochs']), 9)}")
